@@ -189,4 +189,345 @@ theorem closeNorm_normal (T : Table) : ∀ (ls : List FLabel) (k : Nat) (f : FSy
           simp only [closeNormal, if_neg hl, hs]
           exact closeNorm_normal T ls k f'
 
+/-! ### timer expiries: every `expire` directly behind the `anywhere` that armed the timer -/
+
+open VaxisModel.Lemmas.ParserRunFine
+
+/-- The next statement of the main goroutine stops or (re-)arms the timer. -/
+def stopsTimer (f : FSys) : Bool :=
+  match f.mpc with
+  | .readDone _ | .fin .stop _ | .bumped _ => true
+  | _ => false
+
+/-- The statement `p.state = anywhere(r, p)` with `r` = ESC: it arms the timer. -/
+def isArming (T : Table) (f : FSys) (l : FLabel) : Bool :=
+  match l, f.mpc with
+  | .main, .bumped i => arms T i
+  | _, _ => false
+
+/-- Take out the `expire` that consumes the timer pending in `f`: the first `expire` of the schedule,
+    provided no statement in front of it stops the timer (and all of them are enabled). -/
+def extract (T : Table) : FSys → List FLabel → Option (List FLabel)
+  | _, [] => none
+  | f, l :: ls =>
+    if l = .expire then some ls
+    else if l = .main ∧ stopsTimer f = true then none
+    else match FSys.step T f l with
+      | some (f1, _) => (extract T f1 ls).map (l :: ·)
+      | none => none
+
+/-- The normalising function (fuel = length of the schedule): behind every arming statement, the
+    expiry of that timer — if there is one further on — is pulled forward. -/
+def expNorm (T : Table) : Nat → FSys → List FLabel → List FLabel
+  | 0, _, ls => ls
+  | _ + 1, _, [] => []
+  | n + 1, f, l :: ls =>
+    match FSys.step T f l with
+    | none => l :: ls
+    | some (f', _) =>
+      if isArming T f l then
+        match extract T f' ls, FSys.step T f' .expire with
+        | some ls', some (f'', _) => l :: .expire :: expNorm T n f'' ls'
+        | _, _ => l :: expNorm T n f' ls
+      else l :: expNorm T n f' ls
+
+/-- **Normal form for timer expiries**, checked along the run from `f`: every `expire` stands directly
+    behind the statement of the main goroutine that armed the timer (`fl` = the previous statement
+    was such a statement). -/
+def expNormal (T : Table) : Bool → FSys → List FLabel → Bool
+  | _, _, [] => true
+  | fl, f, l :: ls =>
+    match FSys.step T f l with
+    | none => true
+    | some (f', _) => (if l = .expire then fl else true) && expNormal T (isArming T f l) f' ls
+
+theorem run_cons_congr (T : Table) (f f' : FSys) (l : FLabel) (o : List Seq) (X Y : List FLabel)
+    (hs : FSys.step T f l = some (f', o)) (h : FSys.run T f' X = FSys.run T f' Y) :
+    FSys.run T f (l :: X) = FSys.run T f (l :: Y) := by
+  simp only [FSys.run, hs, h]
+
+theorem cb_armed (f f' : FSys) (i : Nat) (o : List Seq) (h : cbStep f i = some (f', o)) :
+    f'.armed = f.armed ∧ i < f.cbs.length := by
+  unfold cbStep at h
+  split at h
+  · cases h
+  · rename_i g pc hi
+    have hlt : i < f.cbs.length := by
+      cases Nat.lt_or_ge i f.cbs.length with
+      | inl h => exact h
+      | inr h => rw [List.getElem?_eq_none_iff.mpr h] at hi; cases hi
+    cases pc <;> simp only at h <;>
+      first
+        | (cases h; done)
+        | (cases h; exact ⟨rfl, hlt⟩)
+        | (split at h <;> first | (cases h; done) | (cases h; exact ⟨rfl, hlt⟩))
+
+/-- A statement that neither stops nor arms the timer, and is not its expiry, leaves it pending. -/
+theorem armed_keep (T : Table) (f f1 : FSys) (l : FLabel) (o : List Seq) (g : Nat)
+    (hs : FSys.step T f l = some (f1, o)) (ha : f.armed = some g) (hl : l ≠ .expire)
+    (hst : ¬ (l = .main ∧ stopsTimer f = true)) : f1.armed = some g := by
+  cases l with
+  | expire => exact absurd rfl hl
+  | closeSig => simp only [FSys.step, Option.some.injEq, Prod.mk.injEq] at hs; rw [← hs.1]; exact ha
+  | readRet i =>
+    simp only [FSys.step] at hs
+    split at hs
+    · simp only [Option.some.injEq, Prod.mk.injEq] at hs; rw [← hs.1]; exact ha
+    · cases hs
+  | cb k => rw [(cb_armed f f1 k o hs).1]; exact ha
+  | main =>
+    have hst' : stopsTimer f = false := by
+      cases h : stopsTimer f with
+      | false => rfl
+      | true => exact absurd ⟨rfl, h⟩ hst
+    simp only [FSys.step] at hs
+    unfold mainStep at hs
+    cases hpc : f.mpc with
+    | atSelect => rw [hpc] at hs; simp only at hs; split at hs <;> (cases hs; exact ha)
+    | inRead => rw [hpc] at hs; cases hs
+    | readDone i => simp [stopsTimer, hpc] at hst'
+    | bumped i => simp [stopsTimer, hpc] at hst'
+    | stopped i =>
+      rw [hpc] at hs; simp only at hs
+      split at hs
+      · cases hs; exact ha
+      · cases hs
+    | locked i => rw [hpc] at hs; cases hs; exact ha
+    | stepped b => rw [hpc] at hs; cases hs; exact ha
+    | fin st v =>
+      rw [hpc] at hs
+      cases st <;> simp only at hs
+      case stop => simp [stopsTimer, hpc] at hst'
+      case lock =>
+        split at hs
+        · cases hs; exact ha
+        · cases hs
+      all_goals (cases hs; exact ha)
+    | done => rw [hpc] at hs; cases hs
+
+/-- The extracted `expire` can be taken first: same result. -/
+theorem extract_run (T : Table) : ∀ (ls : List FLabel) (f : FSys) (ls' : List FLabel),
+    (∃ g, f.armed = some g) → extract T f ls = some ls' → FSys.run T f ls = FSys.run T f (.expire :: ls')
+  | [], _, _, _, h => by simp [extract] at h
+  | l :: ls, f, ls', ⟨g, ha⟩, h => by
+    simp only [extract] at h
+    by_cases hl : l = .expire
+    · rw [if_pos hl] at h
+      simp only [Option.some.injEq] at h
+      rw [hl, h]
+    · rw [if_neg hl] at h
+      by_cases hst : l = .main ∧ stopsTimer f = true
+      · rw [if_pos hst] at h; cases h
+      · rw [if_neg hst] at h
+        cases hs : FSys.step T f l with
+        | none => rw [hs] at h; cases h
+        | some r =>
+          obtain ⟨f1, o⟩ := r
+          rw [hs] at h
+          simp only [Option.map_eq_some_iff] at h
+          obtain ⟨ls1, h1, rfl⟩ := h
+          have ih := extract_run T ls f1 ls1 ⟨g, armed_keep T f f1 l o g hs ha hl hst⟩ h1
+          rw [run_cons_congr T f f1 l o _ _ hs ih]
+          have := expire_moves_earlier T [] ls1 l f hl (fun f' o' hp => by
+            simp only [FSys.run, Option.some.injEq, Prod.mk.injEq] at hp
+            obtain ⟨rfl, _⟩ := hp
+            refine ⟨⟨g, ha⟩, fun hm => ?_, fun k hk => ?_⟩
+            · have hst' : stopsTimer f = false := by
+                cases h : stopsTimer f with
+                | false => rfl
+                | true => exact absurd ⟨hm, h⟩ hst
+              refine ⟨fun i hi => ?_, fun v hv => ?_, fun i hi => ?_⟩ <;> simp [stopsTimer, *] at hst'
+            · subst hk
+              simp only [FSys.step] at hs
+              have := (cb_armed f f1 k o hs).2
+              omega)
+          simpa using this
+
+theorem extract_perm (T : Table) : ∀ (ls : List FLabel) (f : FSys) (ls' : List FLabel),
+    extract T f ls = some ls' → ls.Perm (.expire :: ls')
+  | [], _, _, h => by simp [extract] at h
+  | l :: ls, f, ls', h => by
+    simp only [extract] at h
+    by_cases hl : l = .expire
+    · rw [if_pos hl] at h
+      simp only [Option.some.injEq] at h
+      rw [hl, h]
+    · rw [if_neg hl] at h
+      by_cases hst : l = .main ∧ stopsTimer f = true
+      · rw [if_pos hst] at h; cases h
+      · rw [if_neg hst] at h
+        cases hs : FSys.step T f l with
+        | none => rw [hs] at h; cases h
+        | some r =>
+          obtain ⟨f1, o⟩ := r
+          rw [hs] at h
+          simp only [Option.map_eq_some_iff] at h
+          obtain ⟨ls1, h1, rfl⟩ := h
+          exact ((extract_perm T ls f1 ls1 h1).cons l).trans (List.Perm.swap _ _ _)
+
+theorem expire_some_armed (T : Table) (f f'' : FSys) (o : List Seq) (h : FSys.step T f .expire = some (f'', o)) :
+    (∃ g, f.armed = some g) ∧ f''.armed = none := by
+  simp only [FSys.step] at h
+  split at h
+  · rename_i g hg
+    cases h
+    exact ⟨⟨g, hg⟩, rfl⟩
+  · cases h
+
+/-- **The normalised schedule runs to the same result.** -/
+theorem expNorm_run (T : Table) : ∀ (n : Nat) (f : FSys) (ls : List FLabel),
+    FSys.run T f (expNorm T n f ls) = FSys.run T f ls
+  | 0, _, _ => rfl
+  | _ + 1, _, [] => rfl
+  | n + 1, f, l :: ls => by
+    simp only [expNorm]
+    cases hs : FSys.step T f l with
+    | none => rfl
+    | some r =>
+      obtain ⟨f', o⟩ := r
+      simp only
+      split
+      · split
+        · rename_i ls' f'' o'' he hx
+          refine run_cons_congr T f f' l o _ _ hs ?_
+          rw [extract_run T ls f' ls' (expire_some_armed T f' f'' o'' hx).1 he]
+          exact run_cons_congr T f' f'' .expire o'' _ _ hx (expNorm_run T n f'' ls')
+        · exact run_cons_congr T f f' l o _ _ hs (expNorm_run T n f' ls)
+      · exact run_cons_congr T f f' l o _ _ hs (expNorm_run T n f' ls)
+
+/-- The normalised schedule is a permutation of the original. -/
+theorem expNorm_perm (T : Table) : ∀ (n : Nat) (f : FSys) (ls : List FLabel), (expNorm T n f ls).Perm ls
+  | 0, _, _ => List.Perm.refl _
+  | _ + 1, _, [] => List.Perm.refl _
+  | n + 1, f, l :: ls => by
+    simp only [expNorm]
+    cases hs : FSys.step T f l with
+    | none => exact List.Perm.refl _
+    | some r =>
+      obtain ⟨f', o⟩ := r
+      simp only
+      split
+      · split
+        · rename_i ls' f'' o'' he hx
+          exact (((expNorm_perm T n f'' ls').cons _).trans (extract_perm T ls f' ls' he).symm).cons _
+        · exact (expNorm_perm T n f' ls).cons _
+      · exact (expNorm_perm T n f' ls).cons _
+
+/-- A pending timer was pending before a statement that did not arm it, and that statement did not
+    stop it. -/
+theorem armed_origin (T : Table) (f f' : FSys) (l : FLabel) (o : List Seq) (g : Nat)
+    (hs : FSys.step T f l = some (f', o)) (ha' : f'.armed = some g) (hna : isArming T f l = false)
+    (hl : l ≠ .expire) :
+    f.armed = some g ∧ (l = .main → (∀ i, f.mpc ≠ .readDone i) ∧ (∀ v, f.mpc ≠ .fin .stop v)) := by
+  cases l with
+  | expire => exact absurd rfl hl
+  | closeSig =>
+    simp only [FSys.step, Option.some.injEq, Prod.mk.injEq] at hs
+    rw [← hs.1] at ha'
+    exact ⟨ha', fun h => by cases h⟩
+  | readRet i =>
+    simp only [FSys.step] at hs
+    split at hs
+    · simp only [Option.some.injEq, Prod.mk.injEq] at hs
+      rw [← hs.1] at ha'
+      exact ⟨ha', fun h => by cases h⟩
+    · cases hs
+  | cb k => rw [(cb_armed f f' k o hs).1] at ha'; exact ⟨ha', fun h => by cases h⟩
+  | main =>
+    simp only [FSys.step] at hs
+    unfold mainStep at hs
+    cases hpc : f.mpc with
+    | atSelect =>
+      rw [hpc] at hs; simp only at hs
+      split at hs <;> (cases hs; exact ⟨ha', fun _ => ⟨by simp, by simp⟩⟩)
+    | inRead => rw [hpc] at hs; cases hs
+    | readDone i => rw [hpc] at hs; cases hs; cases ha'
+    | bumped i =>
+      rw [hpc] at hs; cases hs
+      simp only [isArming, hpc] at hna
+      simp only [hna, Bool.false_eq_true, if_false] at ha'
+      exact ⟨ha', fun _ => ⟨by simp, by simp⟩⟩
+    | stopped i =>
+      rw [hpc] at hs; simp only at hs
+      split at hs
+      · cases hs; exact ⟨ha', fun _ => ⟨by simp, by simp⟩⟩
+      · cases hs
+    | locked i => rw [hpc] at hs; cases hs; exact ⟨ha', fun _ => ⟨by simp, by simp⟩⟩
+    | stepped b => rw [hpc] at hs; cases hs; exact ⟨ha', fun _ => ⟨by simp, by simp⟩⟩
+    | fin st v =>
+      rw [hpc] at hs
+      cases st <;> simp only at hs
+      case stop => cases hs; cases ha'
+      case lock =>
+        split at hs
+        · cases hs; exact ⟨ha', fun _ => ⟨by simp, by simp⟩⟩
+        · cases hs
+      all_goals (cases hs; exact ⟨ha', fun _ => ⟨by simp, by simp⟩⟩)
+    | done => rw [hpc] at hs; cases hs
+
+theorem isArming_main (T : Table) (f : FSys) (l : FLabel) (h : isArming T f l = true) : l = .main := by
+  cases l <;> simp [isArming] at h ⊢
+
+/-- **The normalised schedule is in normal form** — from a state that meets the invariant of the
+    statement-grained system (`FInv`: every reachable state does), in which no timer is pending whose
+    expiry is further on in the schedule. -/
+theorem expNorm_normal (T : Table) (hT : TimerOk T) : ∀ (n : Nat) (f : FSys) (ls : List FLabel) (fl : Bool),
+    ls.length ≤ n → FInv f → (∀ g, f.armed = some g → extract T f ls = none) →
+    expNormal T fl f (expNorm T n f ls) = true
+  | 0, _, ls, _, hn, _, _ => by
+    have : ls = [] := List.eq_nil_of_length_eq_zero (by omega)
+    subst this; rfl
+  | _ + 1, _, [], _, _, _, _ => rfl
+  | n + 1, f, l :: ls, fl, hn, hinv, hex => by
+    simp only [List.length_cons] at hn
+    simp only [expNorm]
+    cases hs : FSys.step T f l with
+    | none => simp only [expNormal, hs]
+    | some r =>
+      obtain ⟨f', o⟩ := r
+      have hinv' := step_inv T hT f f' l o hinv hs
+      simp only
+      split
+      · rename_i harm
+        have hlm : l ≠ .expire := by rw [isArming_main T f l harm]; decide
+        split
+        · rename_i ls' f'' o'' he hx
+          have hlen := (extract_perm T ls f' ls' he).length_eq
+          simp only [List.length_cons] at hlen
+          simp only [expNormal, hs, if_neg hlm, harm, hx, if_true, Bool.true_and]
+          exact expNorm_normal T hT n f'' ls' _ (by omega) (step_inv T hT f' f'' .expire o'' hinv' hx)
+            (fun g hg => by rw [(expire_some_armed T f' f'' o'' hx).2] at hg; cases hg)
+        · rename_i hno
+          simp only [expNormal, hs, if_neg hlm, Bool.true_and]
+          refine expNorm_normal T hT n f' ls _ (by omega) hinv' (fun g hg => ?_)
+          cases he : extract T f' ls with
+          | none => rfl
+          | some ls' =>
+            exfalso
+            exact hno ls' { f' with armed := none, cbs := f'.cbs ++ [(g, .started)] } [] he (by simp [FSys.step, hg])
+      · rename_i harm
+        by_cases hl : l = .expire
+        · subst hl
+          obtain ⟨⟨g, hg⟩, _⟩ := expire_some_armed T f f' o hs
+          have := hex g hg
+          simp [extract] at this
+        · simp only [expNormal, hs, if_neg hl, Bool.true_and]
+          refine expNorm_normal T hT n f' ls _ (by omega) hinv' (fun g hg => ?_)
+          obtain ⟨ha, hm⟩ := armed_origin T f f' l o g hs hg (by simpa using harm) hl
+          have hst : ¬ (l = .main ∧ stopsTimer f = true) := by
+            rintro ⟨rfl, hst⟩
+            obtain ⟨h1, h2⟩ := hm rfl
+            have hok := (hinv.g2 g ha).2
+            cases hpc : f.mpc with
+            | readDone i => exact h1 i hpc
+            | bumped i => rw [hpc] at hok; cases hok
+            | fin st v =>
+              cases st
+              case stop => exact h2 v hpc
+              all_goals simp [stopsTimer, hpc] at hst
+            | _ => simp [stopsTimer, hpc] at hst
+          have := hex g ha
+          simp only [extract, if_neg hl, if_neg hst, hs, Option.map_eq_none_iff] at this
+          exact this
+
 end VaxisModel.Lemmas.ParserRunSchedNormal
